@@ -9,6 +9,7 @@ import (
 	"time"
 
 	"github.com/gobuffalo/plush/v5"
+	"github.com/gobuffalo/plush/v5/parser"
 )
 
 // C03 — parsing is total: any text yields a program or an error, never a crash or a hang.
@@ -56,7 +57,8 @@ func c03Try(c *Ctx, src, origin string, cas interface{}) {
 			}
 			return "", err
 		}
-		return plush.Render(src, ctx)
+		// (a template that parses is not executed here: a mutated program may legitimately recurse for ever)
+		return "", nil
 	})
 	if reparse != "" {
 		c.Fail("failed-parse-forgotten", fmt.Sprintf("%q: %s", trunc(src, 120), reparse), cas)
@@ -64,9 +66,9 @@ func c03Try(c *Ctx, src, origin string, cas interface{}) {
 	switch {
 	case o.Hang:
 		atomic.AddInt32(&c03Hangs, 1)
-		c.Fail("hang", fmt.Sprintf("Parse/Render of %q did not return within 3s", trunc(src, 120)), cas)
+		c.Fail("hang", fmt.Sprintf("Parse of %q did not return within 3s", trunc(src, 120)), cas)
 	case o.Panic != "":
-		c.Fail("panic@"+o.Site, fmt.Sprintf("Parse/Render of %q panicked: %s (in %s)", trunc(src, 120), trunc(o.Panic, 120), o.Site), cas)
+		c.Fail("panic@"+o.Site, fmt.Sprintf("Parse of %q panicked: %s (in %s)", trunc(src, 120), trunc(o.Panic, 120), o.Site), cas)
 	}
 	if shape != "" && len(src) > 12 {
 		c.Sample(map[string]interface{}{"input": src, "from": origin, "returned_error": o.IsErr, "panic": o.Panic, "hang": o.Hang})
@@ -84,7 +86,7 @@ func c03Shape(src string) string {
 }
 
 func checkC03(c *Ctx) error {
-	c.ruleText = "Soup.tla: every sequence of <= K tokens over the lexer's token vocabulary (50 token classes, K=2; 30 classes, K=3 quick / 50 classes K=3 and 30 classes K=4 thorough) in five framings (closed code tag, output tag, unclosed tag, nested opener, after text) and seeded random soup of up to 30 tokens; ParserCtl.tla: termination and no-nil-dereference of the parser's control skeleton checked by TLC for all token sequences up to its bound. Harness additions: every token of well-formed generated programs replaced by each of 17 poison tokens (overflowing number, break outside a loop, stray closers and openers, keywords, unterminated string, nothing); byte-level mutations (delete, duplicate, swap, truncate, insert delimiter) of well-formed generated programs, and nestings of depth up to 256 of every bracketing construct. Real-code oracle: Parse and Render return within the watchdog without panicking. distinct_nontrivial = distinct inputs containing at least one tag opener."
+	c.ruleText = "Soup.tla: every sequence of <= K tokens over the lexer's token vocabulary (50 token classes, K=2; 30 classes, K=3 quick / 50 classes K=3 and 30 classes K=4 thorough) in five framings (closed code tag, output tag, unclosed tag, nested opener, after text) and seeded random soup of up to 30 tokens; ParserCtl.tla: termination and no-nil-dereference of the parser's control skeleton checked by TLC for all token sequences up to its bound. Harness additions: every token of well-formed generated programs replaced by each of 17 poison tokens (overflowing number, break outside a loop, stray closers and openers, keywords, unterminated string, nothing); byte-level mutations (delete, duplicate, swap, truncate, insert delimiter) of well-formed generated programs, and nestings of depth up to 256 of every bracketing construct. Real-code oracle: Parse (plush.NewTemplate, and parser.Parse for the ParserCtl cases) returns within the watchdog without panicking; a template whose parse failed fails again when parsed or executed a second time. distinct_nontrivial = distinct inputs containing at least one tag opener."
 	run := func(raw json.RawMessage) {
 		var sc soupCase
 		if err := json.Unmarshal(raw, &sc); err != nil {
@@ -241,8 +243,85 @@ func checkC03(c *Ctx) error {
 	return nil
 }
 
-// c03Model runs TLC on the parser control skeleton (ParserCtl.tla) when it is present.
+var parserTokSpelling = map[string]string{
+	"ID": "x", "ATOM": "1", "BAD": "99999999999999999999", "LET": "let", "IF": "if", "ELSE": "else", "FOR": "for", "IN": "in", "FN": "fn",
+	"RET": "return", "BRK": "break", "ASSIGN": "=", "OPA": "&&", "OPE": "==", "OPC": "<", "OPL": "+", "OPH": "*", "MINUS": "-", "BANG": "!",
+	"LP": "(", "RP": ")", "LB": "{", "RB": "}", "LK": "[", "RK": "]", "COMMA": ",", "COLON": ":", "SEMI": ";", "DOT": ".", "ILL": "@",
+	"SST": "<%", "EST": "<%=", "CST": "<%#", "END": "%>", "HTML": "text",
+}
+
+type parserCase struct {
+	Toks []string `json:"toks"`
+	Errs bool     `json:"errs"`
+}
+
+// c03Model: ParserCtl.tla is the control skeleton of the recursive-descent parser (PlusCal, one
+// procedure per parse function). TLC checks NoPanic and Termination (liveness) for every token
+// sequence within the bound; every sequence is then spelled out and fed to the real parser: it
+// must return (no panic, no hang), and whether it reports a syntax error is compared with the
+// machine's prediction, which binds the machine to the code (a difference is drift of the model).
 func c03Model(c *Ctx) error {
+	run := func(raw json.RawMessage) {
+		var pc parserCase
+		if json.Unmarshal(raw, &pc) != nil {
+			return
+		}
+		words := make([]string, 0, len(pc.Toks))
+		for _, t := range pc.Toks {
+			words = append(words, parserTokSpelling[t])
+		}
+		src := strings.Join(words, " ")
+		c.Eval("parserctl:" + strings.Join(pc.Toks, " "))
+		c.Rule("parserctl")
+		var perr error
+		o := guarded(3*time.Second, func() (string, error) {
+			_, perr = parser.Parse(src)
+			return "", nil
+		})
+		cas := map[string]interface{}{"gen": "ParserCtl", "toks": pc.Toks, "errs": pc.Errs, "source_text": src}
+		switch {
+		case o.Hang:
+			atomic.AddInt32(&c03Hangs, 1)
+			c.Fail("hang", fmt.Sprintf("parser.Parse(%q) did not return within 3s", src), cas)
+		case o.Panic != "":
+			c.Fail("panic@"+o.Site, fmt.Sprintf("parser.Parse(%q) panicked: %s (in %s)", src, trunc(o.Panic, 120), o.Site), cas)
+		case (perr != nil) != pc.Errs:
+			c.Drift(fmt.Sprintf("ParserCtl predicts error=%v, parser error=%v", pc.Errs, perr != nil))
+			c.mu.Lock()
+			if ex, _ := c.extra["parserctl_drift_examples"].([]string); len(ex) < 12 {
+				c.extra["parserctl_drift_examples"] = append(ex, fmt.Sprintf("%s  (model error=%v, real %v)", src, pc.Errs, perr))
+			}
+			c.mu.Unlock()
+		}
+		if len(pc.Toks) >= 4 {
+			c.Sample(map[string]interface{}{"token_classes": pc.Toks, "source": src, "model_predicts_syntax_error": pc.Errs, "parser_error": fmt.Sprint(perr)})
+		}
+	}
+	pool := newPool(12, run)
+	cfgs := []string{"ParserCtlMC.quick.cfg"}
+	if c.Thorough() {
+		cfgs = []string{"ParserCtlMC.quick.cfg", "ParserCtlMC.k3.cfg", "ParserCtlMC.k5.cfg"}
+	}
+	var err error
+	for _, cfg := range cfgs {
+		if _, err = c.mustTLC("ParserCtl/"+cfg, TLCOpts{Module: "ParserCtlMC", Cfg: cfg, Workers: 14, Seed: c.Seed, Timeout: 60 * time.Minute}, true, pool.feed); err != nil {
+			break
+		}
+	}
+	pool.close()
+	if err != nil {
+		return err
+	}
+	for _, dev := range []string{"asbuilt", "asbuilt_live"} {
+		r, err := RunTLC(TLCOpts{Module: "ParserCtlMC", Cfg: "ParserCtlMC." + dev + ".cfg", Workers: 8, Seed: c.Seed, Timeout: 20 * time.Minute, NoCases: true}, nil)
+		if err != nil {
+			return err
+		}
+		c.extra["model_sensitivity_parser_"+dev] = r.Violated
+		if r.Violated == "" {
+			return fmt.Errorf("ParserCtl.tla (%s) no longer violates its property", dev)
+		}
+	}
 	return nil
 }
 
